@@ -696,9 +696,11 @@ package calendar
 //@ sweep Yun: self.lunar != nil && 0 <= self.startYear && self.startYear <= 10 && 0 <= self.startMonth && self.startMonth <= 11 && 0 <= self.startDay && self.startDay <= 29 && 0 <= self.startHour && self.startHour <= 23 && self.lunar.solar.year <= 9900 [C08]
 //@ sweep DaYun: self.lunar != nil && self.yun != nil && self.yun.lunar != nil && 0 <= self.index && self.index <= 9 && 0 <= self.startYear && self.startYear <= 10000 && self.startYear <= self.endYear && self.endYear <= self.startYear+10 && 1 <= self.startAge && self.startAge <= 200 [C08]
 //@ sweep LiuNian: self.lunar != nil && self.daYun != nil && 0 <= self.index && self.index <= 9 && 0 <= self.daYun.index && self.daYun.index <= 9 && 1 <= self.daYun.startAge && self.daYun.startAge <= 200 && 0 <= self.year && self.year <= 10000 [C08]
-//@ sweep LiuYue: self.liuNian != nil && 0 <= self.index && self.index <= 11 && 0 <= self.liuNian.year && self.liuNian.year <= 10000 [C08]
+//@ sweep LiuYue: self.liuNian != nil && self.liuNian.lunar != nil && self.liuNian.daYun != nil && 0 <= self.index && self.index <= 11 && 0 <= self.liuNian.year && self.liuNian.year <= 10000 [C08]
 //@ sweep XiaoYun: self.lunar != nil && self.daYun != nil && 0 <= self.index && self.index <= 9 && 0 <= self.daYun.index && self.daYun.index <= 9 && 1 <= self.daYun.startAge && self.daYun.startAge <= 200 [C08]
-//@ sweep Lunar LunarYear LunarMonth LunarTime EightChar NineStar Tao Foto JieQi Fu ShuJiu TaoFestival FotoFestival [C08]
+//@ sweep Tao: self.lunar != nil [C08]
+//@ sweep Foto: self.lunar != nil [C08]
+//@ sweep Lunar LunarYear LunarMonth LunarTime EightChar NineStar JieQi Fu ShuJiu TaoFestival FotoFestival [C08]
 
 //@ # the Yang Gong taboo day predicate is total (it walks the day's festival list)
 //@ ghost func fotoYangGongTotal(f *Foto) [C08 C17]
@@ -895,3 +897,172 @@ package calendar
 //@     monthLocateBack(l.solar.year, midx(l.solar.year, sjdn(l.solar)))
 //@     uniqueAx(l.year)
 //@     assert(f.IsDayZhaiSix() == (d == 8 || d == 14 || d == 15 || d == 23 || d == 29 || d == 30 || (d == 28 && mDat(l.solar.year, midx(l.solar.year, sjdn(l.solar))) != 30)))
+
+//@ # ================================================================ C13: seasonal counters and movable festivals
+//@ # day number of the date part of a term entry
+//@ spec func jqDay(l *Lunar, k int) int
+//@   = sjdn(jqs(l, k))
+
+//@ # nine-nines: 81 days from the winter-solstice day (the December one of this civil year once it is reached,
+//@ # else the one of the previous December) in nine groups of nine; absent otherwise
+//@ spec func shuJiuBase(l *Lunar) int
+//@   = ite(sjdn(l.solar) >= jqDay(l, 25), jqDay(l, 25), jqDay(l, 1))
+
+//@ func (lunar *Lunar) GetShuJiu() *ShuJiu [C13]
+//@   requires 2 <= lunar.solar.year
+//@   ensures (result == nil) == !(0 <= sjdn(lunar.solar)-shuJiuBase(lunar) && sjdn(lunar.solar)-shuJiuBase(lunar) < 81)
+//@   ensures implies(result != nil, result.index == modf(sjdn(lunar.solar)-shuJiuBase(lunar), 9)+1 && result.name == LunarUtil.NUMBER[divf(sjdn(lunar.solar)-shuJiuBase(lunar), 9)+1]+"九")
+//@   hint current#1: sjdn(current) == sjdn(lunar.solar) && ssec(current) == 0 && inYears(current.year)
+//@   hint start#2: sjdn(start) == jqDay(lunar, 25) && ssec(start) == 0 && inYears(start.year)
+//@   hint start#3: sjdn(start) == shuJiuBase(lunar) && ssec(start) == 0 && inYears(start.year)
+//@   hint end#1: sjdn(end) == shuJiuBase(lunar)+81 && ssec(end) == 0
+//@   hint days#1: days == sjdn(lunar.solar)-shuJiuBase(lunar) && 0 <= days && days < 81
+
+//@ # dog days: first period from the third geng day on or after the summer solstice (10 days), the middle period
+//@ # until the first geng day on or after Liqiu (10 or 20 days), the last period 10 days; the day index counts from 1
+//@ spec func fuFirst(l *Lunar) int
+//@   = jqDay(l, 13) + modf(6-modf(jqDay(l, 13)-11, 10), 10) + 20
+//@ spec func fuLong(l *Lunar) bool
+//@   = jqDay(l, 16) > fuFirst(l)+20
+
+//@ lemma fuFirstIsGeng(j int) [C13]
+//@   requires 0 <= j
+//@   ensures modf(j+modf(6-modf(j-11, 10), 10)+20-11, 10) == 6 && 20 <= modf(6-modf(j-11, 10), 10)+20 && modf(6-modf(j-11, 10), 10)+20 <= 29
+
+//@ func (lunar *Lunar) GetFu() *Fu [C13]
+//@   requires 2 <= lunar.solar.year
+//@   ensures (result == nil) == !(fuFirst(lunar) <= sjdn(lunar.solar) && sjdn(lunar.solar) < fuFirst(lunar)+ite(fuLong(lunar), 40, 30))
+//@   ensures implies(result != nil && sjdn(lunar.solar) < fuFirst(lunar)+10, result.name == "初伏" && result.index == sjdn(lunar.solar)-fuFirst(lunar)+1)
+//@   ensures implies(result != nil && fuFirst(lunar)+10 <= sjdn(lunar.solar) && sjdn(lunar.solar) < fuFirst(lunar)+ite(fuLong(lunar), 30, 20), result.name == "中伏" && result.index == sjdn(lunar.solar)-fuFirst(lunar)-9)
+//@   ensures implies(result != nil && fuFirst(lunar)+ite(fuLong(lunar), 30, 20) <= sjdn(lunar.solar), result.name == "末伏" && result.index == sjdn(lunar.solar)-fuFirst(lunar)-ite(fuLong(lunar), 29, 19))
+//@   hint current#1: sjdn(current) == sjdn(lunar.solar) && ssec(current) == 0 && inYears(current.year)
+//@   hint liQiu#1: xiaZhi.year == lunar.solar.year && liQiu.year == lunar.solar.year && sjdn(xiaZhi) == jqDay(lunar, 13) && sjdn(liQiu) == jqDay(lunar, 16)
+//@   hint add#3: add == modf(6-modf(jqDay(lunar, 13)-11, 10), 10)+20
+//@   hint start#2: sjdn(start) == fuFirst(lunar) && ssec(start) == 0 && inYears(start.year)
+//@   hint days#1: days == sjdn(lunar.solar)-fuFirst(lunar) && days >= 0
+//@   hint days#2: days == sjdn(lunar.solar)-fuFirst(lunar)-10 && sjdn(start) == fuFirst(lunar)+10 && ssec(start) == 0
+//@   hint days#3: days == sjdn(lunar.solar)-fuFirst(lunar)-20 && sjdn(start) == fuFirst(lunar)+20 && ssec(start) == 0
+//@   hint liQiuSolar#1: sjdn(liQiuSolar) == jqDay(lunar, 16) && ssec(liQiuSolar) == 0 && inYears(liQiuSolar.year)
+
+//@ # pentads: the term in force (latest term on this day or earlier) splits into three five-day pentads, the third
+//@ # absorbing the remainder; the 72 phenological names follow the term order starting at the winter solstice
+//@ # position in the term table of the term in force: the latest entry that is not after today (t, d1..d30 are the
+//@ # YYYYMMDD keys of today and of entries 1..30)
+//@ opaque spec func latestNotAfter(t int, d1 int, d2 int, d3 int, d4 int, d5 int, d6 int, d7 int, d8 int, d9 int, d10 int, d11 int, d12 int, d13 int, d14 int, d15 int, d16 int, d17 int, d18 int, d19 int, d20 int, d21 int, d22 int, d23 int, d24 int, d25 int, d26 int, d27 int, d28 int, d29 int, d30 int) int
+//@   = ite(t >= d30, 30, ite(t >= d29, 29, ite(t >= d28, 28, ite(t >= d27, 27, ite(t >= d26, 26, ite(t >= d25, 25, ite(t >= d24, 24, ite(t >= d23, 23, ite(t >= d22, 22, ite(t >= d21, 21, ite(t >= d20, 20, ite(t >= d19, 19, ite(t >= d18, 18, ite(t >= d17, 17, ite(t >= d16, 16, ite(t >= d15, 15, ite(t >= d14, 14, ite(t >= d13, 13, ite(t >= d12, 12, ite(t >= d11, 11, ite(t >= d10, 10, ite(t >= d9, 9, ite(t >= d8, 8, ite(t >= d7, 7, ite(t >= d6, 6, ite(t >= d5, 5, ite(t >= d4, 4, ite(t >= d3, 3, ite(t >= d2, 2, ite(t >= d1, 1, 0))))))))))))))))))))))))))))))
+//@ spec func prevIdx(l *Lunar) int
+//@   = latestNotAfter(dkey(l.solar), dkey(jqs(l, 1)), dkey(jqs(l, 2)), dkey(jqs(l, 3)), dkey(jqs(l, 4)), dkey(jqs(l, 5)), dkey(jqs(l, 6)), dkey(jqs(l, 7)), dkey(jqs(l, 8)), dkey(jqs(l, 9)), dkey(jqs(l, 10)), dkey(jqs(l, 11)), dkey(jqs(l, 12)), dkey(jqs(l, 13)), dkey(jqs(l, 14)), dkey(jqs(l, 15)), dkey(jqs(l, 16)), dkey(jqs(l, 17)), dkey(jqs(l, 18)), dkey(jqs(l, 19)), dkey(jqs(l, 20)), dkey(jqs(l, 21)), dkey(jqs(l, 22)), dkey(jqs(l, 23)), dkey(jqs(l, 24)), dkey(jqs(l, 25)), dkey(jqs(l, 26)), dkey(jqs(l, 27)), dkey(jqs(l, 28)), dkey(jqs(l, 29)), dkey(jqs(l, 30)))
+//@ spec func houNo(d int) int
+//@   = ite(divf(d, 5) > 2, 2, divf(d, 5))
+
+//@ # with the entries in strictly increasing day order, the latest entry not after today is the one whose successor is
+//@ spec func termInForce(l *Lunar, k int) bool
+//@   = !dayBefore(l.solar, jqs(l, k)) && dayBefore(l.solar, jqs(l, k+1))
+//@ lemma prevIdxInForce(l *Lunar) [C13]
+//@   reveal latestNotAfter
+//@   requires l != nil && 2 <= l.solar.year
+//@   ensures all(0, 29, func(k int) bool { return termInForce(l, k) == (prevIdx(l) == k) }) && (!dayBefore(l.solar, jqs(l, 30))) == (prevIdx(l) == 30)
+//@   ensures 1 <= prevIdx(l) && prevIdx(l) <= 30
+
+//@ func (lunar *Lunar) GetPrevJieQiByWholeDay(wholeDay bool) *JieQi [C13]
+//@   requires wholeDay && 2 <= lunar.solar.year
+//@   ensures result.name == convertJieQi(JIE_QI_IN_USE[prevIdx(lunar)])
+//@   ensures result != nil && result.solar != nil
+//@   ensures all(0, 29, func(k int) bool { return implies(termInForce(lunar, k), sameSolar(result.solar, jqs(lunar, k)) && result.name == convertJieQi(JIE_QI_IN_USE[k])) }) &&
+//@           implies(!dayBefore(lunar.solar, jqs(lunar, 30)), sameSolar(result.solar, jqs(lunar, 30)) && result.name == convertJieQi(JIE_QI_IN_USE[30])) &&
+//@           all(0, 30, func(k int) bool { return implies(prevIdx(lunar) == k, sameSolar(result.solar, jqs(lunar, k))) }) &&
+//@           !dayBefore(lunar.solar, result.solar) && inYears(result.solar.year)
+//@   use prevIdxInForce(lunar)
+
+//@ func (lunar *Lunar) GetHou() string [C13]
+//@   requires 2 <= lunar.solar.year
+//@   ensures result == convertJieQi(JIE_QI_IN_USE[prevIdx(lunar)])+" "+LunarUtil.HOU[houNo(sjdn(lunar.solar)-jqDay(lunar, prevIdx(lunar)))]
+//@   use solarOrder(jqs(lunar, k), lunar.solar) for k in 0..30
+//@   use prevIdxInForce(lunar)
+//@   hint jq#1: sjdn(jq.solar) == jqDay(lunar, prevIdx(lunar)) && sjdn(jq.solar) <= sjdn(lunar.solar)
+//@   hint offset#1: offset == divf(sjdn(lunar.solar)-jqDay(lunar, prevIdx(lunar)), 5) && offset >= 0
+//@   split prevIdx(lunar) in 0..30
+
+//@ func (lunar *Lunar) GetWuHou() string [C13]
+//@   requires 2 <= lunar.solar.year
+//@   ensures result == LunarUtil.WU_HOU[modf(modf(prevIdx(lunar)+23, 24)*3+houNo(sjdn(lunar.solar)-jqDay(lunar, prevIdx(lunar))), 72)]
+//@   use solarOrder(jqs(lunar, k), lunar.solar) for k in 0..30
+//@   use prevIdxInForce(lunar)
+//@   hint jq#1: sjdn(jq.solar) == jqDay(lunar, prevIdx(lunar)) && sjdn(jq.solar) <= sjdn(lunar.solar)
+//@   hint offset#2: offset == modf(prevIdx(lunar)+23, 24)
+//@   hint index#1: index == divf(sjdn(lunar.solar)-jqDay(lunar, prevIdx(lunar)), 5) && index >= 0
+//@   split prevIdx(lunar) in 0..30
+
+//@ # New Year's Eve: reported exactly when the next civil day belongs to another lunar year
+//@ spec func lunarYearOfDay(j int) int
+//@   = mYat(yOf(j), midx(yOf(j), j))
+
+//@ # T13 the lunar year number does not change between 31 December and 1 January unless a month ends on 31 December
+//@ axiom seamAx(y int) [C13]
+//@   requires 1 <= y && y <= 9997
+//@   ensures all(0, 14, func(i int) bool { return all(0, 14, func(k int) bool { return implies(mF(y, i) <= jdn(y, 12, 31) && jdn(y, 12, 31) < mF(y, i)+mD(y, i)-1 &&
+//@             mF(y+1, k) <= jdn(y+1, 1, 1) && jdn(y+1, 1, 1) < mF(y+1, k)+mD(y+1, k), mY(y, i) == mY(y+1, k)) }) })
+//@   domain y 1 9997
+//@   checked_by tables
+
+//@ # the lunar year number changes only after the last day of a month
+//@ lemma yearChangeAtMonthEnd(y int, j int) [C13]
+//@   reveal midx mYat mMat mFat mDat
+//@   requires 1 <= y && y <= 9997 && jdn(y, 1, 1) <= j && j <= jdn(y, 12, 31)
+//@   ensures implies(lunarYearOfDay(j+1) != mYat(y, midx(y, j)), j-mFat(y, midx(y, j))+1 == mDat(y, midx(y, j)) && mDat(y, midx(y, j)) >= 28)
+//@   use tableAx(y)
+//@   use tableAx(y+1)
+//@   use seamAx(y)
+//@   use yearOfDate(y+1, 1, 1)
+//@   use yearOfDate(y, 1, 1)
+//@   use yearOfDate(y, 12, 31)
+//@   use yearStep(y)
+//@   use dayLinear(y, 12, 31)
+//@   use monthStep(y, 12)
+//@   use yOfMono(jdn(y, 1, 1), j+1)
+//@   use yOfMono(j+1, jdn(y+1, 1, 1))
+//@   use yOfBracket(j+1)
+//@   split midx(y, j) in 0..14
+
+//@ # n days later on the lunar side is the lunar date of the civil day n days later
+//@ func (lunar *Lunar) Next(days int) *Lunar [C13 C01]
+//@   requires jdn(1, 1, 1) <= sjdn(lunar.solar)+days && sjdn(lunar.solar)+days <= jdn(9998, 12, 31)
+//@   ensures sjdn(result.solar) == sjdn(lunar.solar)+days && result.solar.year == yOf(sjdn(lunar.solar)+days) && result.solar.month == mOf(sjdn(lunar.solar)+days) && result.solar.day == dOf(sjdn(lunar.solar)+days)
+//@   ensures result.solar.hour == lunar.solar.hour && result.solar.minute == lunar.solar.minute && result.solar.second == lunar.solar.second
+//@   ensures result.year == lunarYearOfDay(sjdn(lunar.solar)+days)
+//@   use epoch()
+//@   use yearOfDate(1, 1, 1)
+//@   use yearOfDate(9998, 12, 31)
+//@   use yOfMono(jdn(1, 1, 1), sjdn(lunar.solar)+days)
+//@   use yOfMono(sjdn(lunar.solar)+days, jdn(9998, 12, 31))
+
+//@ func (lunar *Lunar) GetFestivals() *list.List [C13]
+//@   requires lunar.solar.year <= 9997
+//@   ensures lhas(result, "除夕") == (lunarYearOfDay(sjdn(lunar.solar)+1) != lunar.year)
+//@   use tableAx(lunar.solar.year)
+//@   use jdnMono(lunar.solar.year, lunar.solar.month, lunar.solar.day, lunar.solar.year, 12, 31)
+//@   use jdnMono(lunar.solar.year, 12, 31, lunar.solar.year, lunar.solar.month, lunar.solar.day)
+//@   use jdnMono(lunar.solar.year, 1, 1, lunar.solar.year, lunar.solar.month, lunar.solar.day)
+//@   use jdnMono(lunar.solar.year, lunar.solar.month, lunar.solar.day, lunar.solar.year, 1, 1)
+//@   use yearChangeAtMonthEnd(lunar.solar.year, sjdn(lunar.solar))
+//@   use yearOfDate(lunar.solar.year, lunar.solar.month, lunar.solar.day)
+//@   use yearOfDate(9998, 12, 31)
+//@   use jdnMono(lunar.solar.year, lunar.solar.month, lunar.solar.day, 9998, 12, 31)
+
+//@ # Cold Food on the day before Qingming; She days on the fifth wu day counted from Lichun / Liqiu
+//@ spec func sheDay(j int) int
+//@   = j + modf(4-modf(j-11, 10), 10) + 40
+//@ func (lunar *Lunar) GetOtherFestivals() *list.List [C13]
+//@   requires 2 <= lunar.solar.year
+//@   ensures lhas(result, "寒食节") == (sjdn(lunar.solar) == jqDay(lunar, 8)-1)
+//@   ensures lhas(result, "春社") == (sjdn(lunar.solar) == sheDay(jqDay(lunar, 4)))
+//@   ensures lhas(result, "秋社") == (sjdn(lunar.solar) == sheDay(jqDay(lunar, 16)))
+//@   ghost a *Solar = jq.NextDay(-1) @ jq#1
+//@   use solarOrder(a, lunar.solar) @ jq#1
+//@   hint offset#2: offset == modf(4-modf(jqDay(lunar, 4)-11, 10), 10)
+//@   ghost b *Solar = jq.NextDay(offset+40) @ offset#2
+//@   use solarOrder(b, lunar.solar) @ offset#2
+//@   hint offset#4: offset == modf(4-modf(jqDay(lunar, 16)-11, 10), 10)
+//@   ghost c *Solar = jq.NextDay(offset+40) @ offset#4
+//@   use solarOrder(c, lunar.solar) @ offset#4
+
